@@ -340,6 +340,25 @@ pub fn api() -> ApiDescription<Arc<Ctx>> {
     api
 }
 
+/// Like `dsharness::util::quiet_panics`, but only the deliberate handler
+/// panics (and the panics hyper/tokio re-raise from them) are silenced; a panic
+/// of the harness itself is still reported on stderr.
+pub fn quiet_handler_panics() {
+    dsharness::util::quiet_panics();
+    std::panic::set_hook(Box::new(|info| {
+        let msg = if let Some(s) = info.payload().downcast_ref::<String>() {
+            s.clone()
+        } else if let Some(s) = info.payload().downcast_ref::<&str>() {
+            s.to_string()
+        } else {
+            String::new()
+        };
+        if !msg.contains("deliberate handler panic") && !msg.contains("server starts") {
+            eprintln!("harness panic: {} at {:?}", msg, info.location());
+        }
+    }));
+}
+
 pub fn mode_name(m: HandlerTaskMode) -> &'static str {
     match m {
         HandlerTaskMode::Detached => "detached",
@@ -349,11 +368,36 @@ pub fn mode_name(m: HandlerTaskMode) -> &'static str {
 
 pub fn start(rt: &tokio::runtime::Runtime, ctx: &Arc<Ctx>, mode: HandlerTaskMode) -> HttpServer<Arc<Ctx>> {
     let _g = rt.enter();
-    start_server(
-        api(),
-        ctx.clone(),
-        ServerOpts { default_request_body_max_bytes: 1024, mode, version_policy: None },
-    )
+    // bind(127.0.0.1:0) can fail transiently when the ephemeral port range is
+    // crowded (many sockets in TIME_WAIT from earlier runs): retry.
+    let mut tries = 0;
+    loop {
+        let c = ctx.clone();
+        let r = std::panic::catch_unwind(std::panic::AssertUnwindSafe(move || {
+            start_server(
+                api(),
+                c,
+                ServerOpts { default_request_body_max_bytes: 1024, mode, version_policy: None },
+            )
+        }));
+        match r {
+            Ok(s) => return s,
+            Err(e) => {
+                tries += 1;
+                if tries > 100 {
+                    std::panic::resume_unwind(e);
+                }
+                std::thread::sleep(Duration::from_millis(100));
+            }
+        }
+    }
+}
+
+/// Close with SO_LINGER 0 (RST): leaves no socket in TIME_WAIT, so the
+/// ephemeral port is free again at once.  Only used when nothing more is to be
+/// read from the connection.
+pub fn close_rst(rt: &tokio::runtime::Runtime, s: TcpStream) {
+    let _ = disconnect(rt, s, How::Rst);
 }
 
 /// How a client gives up its connection.
